@@ -56,5 +56,8 @@ func TestMC(t *testing.T) {
 	for _, c := range configs() {
 		scenarios = append(scenarios, seqScenario(c))
 	}
+	for _, c := range concConfigs() {
+		scenarios = append(scenarios, concScenario(c))
+	}
 	mc.Main(t, scenarios, seqs())
 }
